@@ -6,12 +6,14 @@ the Python/NumPy indexing semantics of `lean/NessaiVerif/Model/PySlice.lean`, th
 that a theorem `generated definition = hand-written model` is re-proved by `lake build` against what the source says
 now.  Anything outside the supported fragment raises `TranslationError` (reported as a broken tie by the caller).
 
-Types (declared per free variable by the caller): `arr` (List of records), `rec` (one record), `int`.
+Types (declared per free variable by the caller): `arr` (List of records), `rec` (one record), `int`, `iarr` (List Nat:
+an array of non-negative integers, e.g. index arrays).
 Supported
   statements   `x = e`, `x[i] = e`, `x[a:b] = e` (x a name or `self.attr`), `return e`, doc strings
   expressions  names, `self.attr`, integer literals, `+ - *` on ints, unary `-`,
                `x["field"]` (record field / column of an array), `x[i]`, `x[a:b]` (step 1, bounds optional),
-               `np.searchsorted(a, v)` and `np.searchsorted(a, v, side="left"|"right")`, `len(x)`, `x.size`, `x.copy()`
+               `np.searchsorted(a, v)` and `np.searchsorted(a, v, side="left"|"right")`, `len(x)`, `x.size`, `x.copy()`,
+               on index arrays: `np.searchsorted(ia, ib)` (element-wise), `np.insert(ia, positions, values)`
 """
 import ast
 import hashlib
@@ -75,6 +77,10 @@ class _Tx:
             return "int"
         if isinstance(node, ast.Call):
             f = self.key(node.func)
+            if f == "np.searchsorted" and len(node.args) >= 2 and self.types.get(self.key(node.args[0])) == "iarr":
+                return "iarr" if self.typeof(node.args[1]) == "iarr" else "int"
+            if f == "np.insert" and node.args and self.typeof(node.args[0]) == "iarr":
+                return "iarr"
             if f in ("np.searchsorted", "len"):
                 return "int"
             if f.endswith(".copy"):
@@ -125,6 +131,8 @@ class _Tx:
         raise TranslationError(f"unsupported integer expression {self.key(node)!r}")
 
     def col_expr(self, node) -> str:
+        if isinstance(node, ast.Name) and self.types.get(self.key(node)) == "col":
+            return self.lean_name(self.key(node))
         if isinstance(node, ast.Subscript) and isinstance(node.slice, ast.Constant) and isinstance(node.slice.value, str):
             return f"(({self.arr_expr(node.value)}).map (·.{node.slice.value}))"
         raise TranslationError(f"unsupported column expression {self.key(node)!r}")
@@ -156,6 +164,19 @@ class _Tx:
                 raise TranslationError("slice step")
             return f"(Py.getSlice {self.arr_expr(node.value)} {self.bound(sl.lower)} {self.bound(sl.upper)})"
         raise TranslationError(f"unsupported array expression {self.key(node)!r}")
+
+    def iarr_expr(self, node) -> str:
+        if isinstance(node, (ast.Name, ast.Attribute)) and self.types.get(self.key(node)) == "iarr":
+            return self.lean_name(self.key(node))
+        if isinstance(node, ast.Call) and self.key(node.func) == "np.searchsorted" and len(node.args) == 2 and not node.keywords:
+            a, b = node.args
+            if self.typeof(a) == "iarr" and self.typeof(b) == "iarr":
+                return f"(({self.iarr_expr(b)}).map (Np.ssl {self.iarr_expr(a)}))"
+        if isinstance(node, ast.Call) and self.key(node.func) == "np.insert" and len(node.args) == 3 and not node.keywords:
+            a, i, v = node.args
+            if all(self.typeof(x) == "iarr" for x in (a, i, v)):
+                return f"(Np.insertMany {self.iarr_expr(a)} {self.iarr_expr(i)} {self.iarr_expr(v)} 0)"
+        raise TranslationError(f"unsupported index-array expression {self.key(node)!r}")
 
     def rec_expr(self, node) -> Tuple[str, bool]:
         """(lean term, monadic?)"""
@@ -193,6 +214,14 @@ class _Tx:
                 elif t == "arr":
                     rhs = self.arr_expr(st.value)
                     self.types[k] = "arr"
+                    self.lines.append(f"let {self.lean_name(k)} := {rhs}")
+                elif t == "iarr":
+                    rhs = self.iarr_expr(st.value)
+                    self.types[k] = "iarr"
+                    self.lines.append(f"let {self.lean_name(k)} : List Nat := {rhs}")
+                elif t == "col":
+                    rhs = self.col_expr(st.value)
+                    self.types[k] = "col"
                     self.lines.append(f"let {self.lean_name(k)} := {rhs}")
                 elif t == "rec":
                     term, mon = self.rec_expr(st.value)
@@ -240,7 +269,7 @@ def translate_arr(repo_root, spec: ArrSpec) -> ArrTranslated:
         tx.lines.append("return " + (outs[0] if len(outs) == 1 else "(" + ", ".join(outs) + ")"))
     seg = "\n".join(text.splitlines()[fn.lineno - 1:fn.end_lineno])
     sha = hashlib.sha256(seg.encode()).hexdigest()
-    tmap = {"arr": f"List {spec.record_type}", "rec": spec.record_type, "int": "Int"}
+    tmap = {"arr": f"List {spec.record_type}", "rec": spec.record_type, "int": "Int", "iarr": "List Nat"}
     params = " ".join(f"({ln} : {tmap[t]})" for _, ln, t in spec.params)
     head = (f"/-- {spec.doc or spec.func}\n"
             f"generated from `{spec.source}` ({(spec.cls + '.') if spec.cls else ''}{spec.func}, lines {fn.lineno}-{fn.end_lineno}, "
